@@ -16,9 +16,30 @@ FILES = ["Link/LinkWrite.v", "Props/C15.v"]
 
 
 class Unencodable(Message):
-    """a message whose encoding fails (as an AVP with an unrepresentable value would)"""
+    """a message whose encoding fails at once (as_bytes raises before anything was packed)"""
     def as_bytes(self):
         raise ValueError("cannot encode")
+
+
+def _spoil(m):
+    """make the library's OWN encoder fail half-way through the message: after its regular AVPs comes one whose vendor id
+    does not fit 32 bits.  Whatever was packed for it must not leak into the next message."""
+    from diameter.message.avp import Avp
+    bad = Avp()
+    bad.code = 999
+    bad.vendor_id = 1 << 33
+    bad.payload = b"\x01\x02\x03\x04"
+    m.append_avp(bad)
+    m._verif_spoilt = True
+    try:
+        m.as_bytes()
+    except Exception:   # noqa
+        return m
+    raise AssertionError("harness: the spoilt message encodes")
+
+
+def _unencodable(m):
+    return isinstance(m, Unencodable) or getattr(m, "_verif_spoilt", False)
 
 
 def _msg(i, size):
@@ -97,7 +118,10 @@ class Scen:
         for i, (size, good) in enumerate(spec["messages"]):
             m = _msg(i, size)
             if not good:
-                m.__class__ = Unencodable
+                if i % 2 and size >= 0:
+                    _spoil(m)
+                else:
+                    m.__class__ = Unencodable
             self.msgs.append(m)
         r.script_send([tuple(x) if isinstance(x, list) else x for x in spec["sends"]])
 
@@ -147,7 +171,7 @@ class Scen:
     def finish(self):
         conn = self.conn
         sent = self.remote.take_sent()
-        expected = b"".join(Message.as_bytes(m) for m in self.put_order if not isinstance(m, Unencodable))
+        expected = b"".join(Message.as_bytes(m) for m in self.put_order if not _unencodable(m))
         roles = self.sim.live_threads_by_role()
         obs = dict(sent=sent, expected=expected, left=bytes(conn.write_buffer), queued=conn._write_msg_queue.qsize(),
                    deaths=list(self.sim.thread_deaths), writer_alive=roles.get("work_write_queue", 0) >= 1,
